@@ -26,12 +26,15 @@
 // The rewrites (→ canonical form):
 //
 //	exprRules            !!a → a; !(a == b) → a != b; !(a != b) → a == b; len(e) != 0, >= 1, 0 < len(e) … → len(e) > 0; len(e) < 1 … → len(e) == 0
+//	                     !(a <= b) → a > b … for INTEGER operands (go/types); floats are left alone (NaN)
 //	ruleZeroDecl         x := false / "" / 0 → var x bool / string / int
-//	ruleIfNegation       if !c {A} else {B} → if c {B} else {A}
+//	ruleIfNegation       if !c {A} else {B} → if c {B} else {A}   (profile eqFirst: also if a != b {A} else {B} → if a == b {B} else {A})
 //	ruleReturnFlip       if !c {return A}; return B → if c {return B}; return A   (also a != b, nil tests excepted)
 //	ruleElseIf           else if … → else { if … }
 //	ruleSplitAnd         if a && b {S} → if a { if b {S} }
 //	ruleLoopContinue     last in a loop body: if A {S} else if … → if A {S; continue}; if …
+//	                     (profile loopElseContinue: also if [init;] A {S} else {T…} → if [init;] A {S; continue}; T…)
+//	ruleElseAfterJump    if c {…; return/break/continue/panic} else {B…}; rest → if c {…}; B…; rest
 //	ruleSwitchToIf       switch { case c1: A … default: C } → if c1 {A} else if … else {C}
 //	ruleComplement       if a && b {…} else { if !a && !b {…} } → … if a == b {…}
 //	ruleTypeSwitchOrder  clauses of a type switch over disjoint concrete types → canonical order
@@ -42,14 +45,26 @@
 //	ruleRangeValue       for i, x := range xs {… x …} → for i := range xs {… xs[i] …}
 //	ruleLenLocal         n := len(xs); … n … → … len(xs) …
 //	rulePtrLocal         if len(x) > 0 { p := &x[0]; … p.f … } → … x[0].f …
+//	ruleElemLocal        if len(x) > 0 { v := x[0]; L1 = v.f; L2 = v.g; … } → … L1 = x[0].f; L2 = x[0].g …
+//	ruleFwdLocal         v := E; return f(…, v, …) → return f(…, E, …)   (E and all operands pure, v used once)
+//	ruleHeaderAlias      k := E; *p = k; … k … → *p = E; … (*p) …   (while nothing can have stored to *p)
+//	ruleAliasRead        y := X.f; … y … → y := X.f; … X.f …   (y assigned later; only while nothing can have changed y or X.f)
 //	ruleCopyLoop         dst := make(T, len(src)); copy(dst, src) → … for index := range dst { dst[index] = src[index] }   (jsonpath.go only)
-//	inlineHelpers        return h(a…) / h(a…) / if [!]p(a) {…} with h, p unexported helpers of this file → body inlined, helper dropped
+//	inlineHelpers        return h(a…) / h(a…) / if [!]p(a) {…} with h, p unexported helpers of the package → body inlined, helper dropped
+//	                     (every use in the whole package must be inlinable; a method promoted through an embedded
+//	                     pointer is inlined with receiver x.E, and x.E.f is spelled x.f where that is the same field)
 //	normLoopMethodNames  canonical names for the locals of the `comparator` / `validate` methods (alpha-renaming)
 //
 // NOT normalised, deliberately (no checkable side condition makes them equivalences): replacing
 // an indexed fill of a pre-sized slice by append (needs a bound on the number of appends),
-// working on a local copy of `*p` and storing it back (differs when a panic intervenes), swapping
-// two nested conditions one of which may panic, renaming locals that the generated Lean quotes.
+// working on a local copy of `*p` and storing it back LATER (differs when a panic intervenes;
+// ruleHeaderAlias only covers a copy that is stored back at once and then merely read), swapping
+// two nested conditions one of which may panic, renaming locals that the generated Lean quotes,
+// re-associating an allocation (`x := T{…}; …; &x` against `&T{…}` built from a helper's result).
+//
+// Besides rewriting, the pass answers go/types questions about the nodes of a file it has seen
+// (normTypeOf, normConstString, normIsPlainString, normMethodsTrivial): a generator may widen a
+// pattern under a typed side condition instead of a syntactic guess (errtexts does).
 package main
 
 import (
@@ -57,6 +72,7 @@ import (
 	"fmt"
 	"go/ast"
 	"go/build"
+	"go/constant"
 	"go/importer"
 	"go/parser"
 	"go/printer"
@@ -76,6 +92,25 @@ type normProfile struct {
 	keepAndCond   bool // do not split `if a && b {S}` into nested ifs
 	keepIntShort  bool // do not turn `x := 0` into `var x int`
 	keepLenLocals bool // do not inline `n := len(xs)`
+	// the next two switch a direction ON (see withFileDirections: the library spells these
+	// constructs both ways, so there is no global canonical form)
+	loopElseContinue bool // last in a loop body: `if [init;] A {S} else {T…}` -> `if [init;] A {S; continue}; T…`
+	eqFirst          bool // `if a != b {A} else {B}` -> `if a == b {B} else {A}`
+}
+
+// normFileDirections: directions that hold for one file of the library, whichever generator reads
+// it (the library spells these constructs both ways, so the canonical form is per file).
+//
+//	jsonpath.go         Parse tests `parser.parse == nil` first (Init, else Reset)
+//	jsonpath_parser.go  setNodeChain ends its loop body with `if …; ok { …; continue }; …`
+func (p normProfile) withFileDirections(base string) normProfile {
+	switch base {
+	case "jsonpath.go":
+		p.eqFirst = true
+	case "jsonpath_parser.go":
+		p.loopElseContinue = true
+	}
+	return p
 }
 
 // normCopyLoopFile: the one file whose canonical form of "copy into a fresh slice" is the
@@ -93,6 +128,12 @@ type normPkg struct {
 	pkg   *types.Package
 	// identCount[name] = number of identifiers with that name in the whole package
 	identCount map[string]int
+	// useCount[obj] = number of identifiers of the package that USE (not declare) obj
+	useCount map[types.Object]int
+	// fileIdents[file][name]: the number of identifiers called name in that file
+	fileIdents map[string]map[string]int
+	// trivial[name]: cached normMethodsTrivial
+	trivial map[string]bool
 }
 
 var normCache = map[string]*normPkg{}
@@ -103,7 +144,7 @@ func normLoad(dir string) *normPkg {
 	if p, ok := normCache[dir]; ok {
 		return p
 	}
-	p := &normPkg{fset: token.NewFileSet(), files: map[string]*ast.File{}, identCount: map[string]int{}}
+	p := &normPkg{fset: token.NewFileSet(), files: map[string]*ast.File{}, identCount: map[string]int{}, fileIdents: map[string]map[string]int{}}
 	normCache[dir] = p
 	ents, err := os.ReadDir(dir)
 	if err != nil {
@@ -129,9 +170,11 @@ func normLoad(dir string) *normPkg {
 		}
 		p.files[n] = f
 		files = append(files, f)
+		p.fileIdents[n] = map[string]int{}
 		ast.Inspect(f, func(x ast.Node) bool {
 			if id, ok := x.(*ast.Ident); ok {
 				p.identCount[id.Name]++
+				p.fileIdents[n][id.Name]++
 			}
 			return true
 		})
@@ -156,6 +199,10 @@ func normLoad(dir string) *normPkg {
 		return p
 	}
 	p.pkg = pkg
+	p.useCount = map[types.Object]int{}
+	for _, o := range p.info.Uses {
+		p.useCount[o]++
+	}
 	p.ok = true
 	return p
 }
@@ -169,6 +216,98 @@ type normCtx struct {
 	pair    map[ast.Node]ast.Node // node of the generator's AST (or a clone of one) -> typed node
 	fn      *ast.FuncDecl         // function being normalised
 	changed bool
+	foreign map[*ast.File]bool // typed files of the package whose nodes are paired with themselves
+}
+
+// normCtxOf remembers the context of every generator file that went through the pass, so that a
+// generator can ask go/types questions about the nodes it looks at (normTypeOf, normConstString).
+// Nodes created by a rewrite have no type information: the answer for them is "unknown".
+var normCtxOf = map[*ast.File]*normCtx{}
+
+// normTypeOf: the static type of expression e of generator file f (nil when unknown).
+func normTypeOf(f *ast.File, e ast.Expr) types.Type {
+	if c := normCtxOf[f]; c != nil {
+		return c.typeOf(e)
+	}
+	return nil
+}
+
+// normConstString: e is a constant expression of string kind (go/types); its value.
+func normConstString(f *ast.File, e ast.Expr) (string, bool) {
+	c := normCtxOf[f]
+	if c == nil {
+		return "", false
+	}
+	t, ok := c.pair[e].(ast.Expr)
+	if !ok {
+		return "", false
+	}
+	tv, ok := c.pkg.info.Types[t]
+	if !ok || tv.Value == nil || tv.Value.Kind() != constant.String {
+		return "", false
+	}
+	return constant.StringVal(tv.Value), true
+}
+
+// normIsPlainString: the static type of e is exactly the predeclared type string (not a named
+// string type, which could carry a String or Error method that fmt's %s would call).
+func normIsPlainString(f *ast.File, e ast.Expr) bool {
+	t := normTypeOf(f, e)
+	return t != nil && types.Identical(t, types.Typ[types.String])
+}
+
+// normMethodsTrivial: the package in dir type-checks, declares at least one method called name,
+// name is unexported, and EVERY method of that name in the package has a body that is a single
+// `return e` with e free of calls, closures and receives. A call x.name() — whatever the dynamic
+// type of x: an unexported method can only be implemented inside the package — then stores
+// nothing and calls nothing: it cannot change any variable.
+func normMethodsTrivial(dir, name string) bool {
+	p := normLoad(dir)
+	if !p.ok || name == "" || ast.IsExported(name) {
+		return false
+	}
+	c := &normCtx{pkg: p, pair: map[ast.Node]ast.Node{}}
+	found := false
+	for _, n := range p.names {
+		c.pairIdentity(p.files[n])
+		for _, d := range p.files[n].Decls {
+			fd, ok := d.(*ast.FuncDecl)
+			if !ok || fd.Recv == nil || fd.Name.Name != name {
+				continue
+			}
+			if fd.Body == nil || len(fd.Body.List) != 1 {
+				return false
+			}
+			ret, ok := fd.Body.List[0].(*ast.ReturnStmt)
+			if !ok || c.impureIn(ret) {
+				return false
+			}
+			found = true
+		}
+	}
+	return found
+}
+
+// pairIdentity pairs every node of a TYPED file of the package with itself, so that the type
+// queries and clone work on it exactly as on a generator file.
+func (c *normCtx) pairIdentity(f *ast.File) {
+	if c.foreign == nil {
+		c.foreign = map[*ast.File]bool{}
+	}
+	if f == nil || c.foreign[f] {
+		return
+	}
+	c.foreign[f] = true
+	ast.Inspect(f, func(n ast.Node) bool {
+		switch n.(type) {
+		case nil:
+			return false
+		case *ast.Comment, *ast.CommentGroup:
+			return false
+		}
+		c.pair[n] = n
+		return true
+	})
 }
 
 // mark records that a rule rewrote something; with JPV_NORM_TRACE set it is reported on stderr.
@@ -208,7 +347,8 @@ func normalizeFileWith(fset *token.FileSet, f *ast.File, prof normProfile) {
 	if !ok {
 		return
 	}
-	c := &normCtx{fset: fset, file: f, pkg: pkg, prof: prof, pair: pair}
+	c := &normCtx{fset: fset, file: f, pkg: pkg, prof: prof.withFileDirections(filepath.Base(path)), pair: pair}
+	normCtxOf[f] = c
 	c.run()
 }
 
@@ -1031,8 +1171,13 @@ func (c *normCtx) run() {
 			c.ruleRangeValue(fd)
 			visitLists(fd, c.ruleLenLocal)
 			visitLists(fd, c.rulePtrLocal)
+			visitLists(fd, c.ruleElemLocal)
+			visitLists(fd, c.ruleFwdLocal)
+			visitLists(fd, c.ruleHeaderAlias)
+			visitLists(fd, c.ruleAliasRead)
 			visitLists(fd, c.ruleCopyLoop)
 			visitLists(fd, c.ruleLoopContinue)
+			visitLists(fd, c.ruleElseAfterJump)
 			visitLists(fd, c.ruleVoidEarlyReturn)
 			visitLists(fd, c.ruleTailMerge)
 			visitLists(fd, c.ruleTailSplit)
@@ -1080,6 +1225,22 @@ func negate(e ast.Expr) ast.Expr {
 	return &ast.UnaryExpr{OpPos: e.Pos(), Op: token.NOT, X: unparen(e)}
 }
 
+// orderedNegation[op] is the comparison that holds exactly when `a op b` does not — on a totally
+// ordered operand type.
+var orderedNegation = map[token.Token]token.Token{
+	token.LSS: token.GEQ, token.GEQ: token.LSS, token.GTR: token.LEQ, token.LEQ: token.GTR,
+}
+
+// isIntegerTyped: go/types gives e an integer type (typed, or an untyped integer constant).
+func (c *normCtx) isIntegerTyped(e ast.Expr) bool {
+	t := c.typeOf(e)
+	if t == nil {
+		return false
+	}
+	b, ok := t.Underlying().(*types.Basic)
+	return ok && b.Info()&types.IsInteger != 0
+}
+
 func isIntLit(e ast.Expr, v string) bool {
 	l, ok := e.(*ast.BasicLit)
 	return ok && l.Kind == token.INT && l.Value == v
@@ -1090,7 +1251,11 @@ func isIntLit(e ast.Expr, v string) bool {
 //	!!a -> a ; !(a == b) -> a != b ; !(a != b) -> a == b        (see negate)
 //	len(e) != 0, len(e) >= 1, 0 != len(e), 0 < len(e), 1 <= len(e)   -> len(e) > 0
 //	len(e) < 1, len(e) <= 0, 0 == len(e), 0 >= len(e), 1 > len(e)    -> len(e) == 0
+//	!(a < b) -> a >= b ; !(a <= b) -> a > b ; !(a > b) -> a <= b ; !(a >= b) -> a < b   for integers
 //
+// The last line is sound because — checked with go/types — both operands have an integer type:
+// integers are totally ordered, so exactly one of `a <= b`, `a > b` holds; both operands are
+// evaluated once, in the same order. (Floats are excluded: with a NaN operand both are false.)
 // Sound because the builtin len (checked: the identifier denotes the universe builtin) returns an
 // int >= 0 for every operand type, so the listed comparisons are the same predicate; e is
 // evaluated exactly once in each form.
@@ -1116,6 +1281,11 @@ func (c *normCtx) exprRules(fd *ast.FuncDecl) {
 				if in.Op == token.EQL || in.Op == token.NEQ {
 					c.mark("exprRules")
 					return negate(in)
+				}
+				// !(a <= b) -> a > b etc.: exact for integers (a total order; NOT for floats: NaN)
+				if flip, ok := orderedNegation[in.Op]; ok && c.isIntegerTyped(in.X) && c.isIntegerTyped(in.Y) {
+					c.mark("exprRules")
+					return &ast.BinaryExpr{X: in.X, OpPos: in.OpPos, Op: flip, Y: in.Y}
 				}
 			}
 		case *ast.BinaryExpr:
@@ -1202,17 +1372,24 @@ func (c *normCtx) ruleZeroDecl(list []ast.Stmt, _ listCtx) []ast.Stmt {
 	return list
 }
 
-// ruleIfNegation: `if !c { A } else { B }` -> `if c { B } else { A }`.
-// Sound because c is evaluated once in both forms and exactly the same branch bodies run; the
-// init statement, if any, stays in place and its scope covers both branches either way.
+// ruleIfNegation: `if !c { A } else { B }` -> `if c { B } else { A }`; with the profile eqFirst
+// also `if a != b { A } else { B }` -> `if a == b { B } else { A }`.
+// Sound because c (resp. the comparison, whose operands are evaluated once, in the same order) is
+// evaluated once in both forms and exactly the same branch bodies run: a == b is true exactly
+// when a != b is false, for every comparable operand type; the init statement, if any, stays in
+// place and its scope covers both branches either way.
 func (c *normCtx) ruleIfNegation(fd *ast.FuncDecl) {
 	ast.Inspect(fd.Body, func(n ast.Node) bool {
 		is, ok := n.(*ast.IfStmt)
 		if !ok || is.Else == nil {
 			return true
 		}
-		u, ok := unparen(is.Cond).(*ast.UnaryExpr)
-		if !ok || u.Op != token.NOT {
+		var pos ast.Expr // the condition of the rewritten statement
+		if u, ok := unparen(is.Cond).(*ast.UnaryExpr); ok && u.Op == token.NOT {
+			pos = unparen(u.X)
+		} else if b, ok := unparen(is.Cond).(*ast.BinaryExpr); ok && b.Op == token.NEQ && c.prof.eqFirst {
+			pos = negate(b) // a == b: the exact negation of a != b (see negate)
+		} else {
 			return true
 		}
 		var elseBlock *ast.BlockStmt
@@ -1222,7 +1399,7 @@ func (c *normCtx) ruleIfNegation(fd *ast.FuncDecl) {
 		default:
 			elseBlock = &ast.BlockStmt{Lbrace: e.Pos(), List: []ast.Stmt{e}, Rbrace: e.End()}
 		}
-		is.Cond = unparen(u.X)
+		is.Cond = pos
 		is.Body, is.Else = elseBlock, is.Body
 		c.mark("ruleIfNegation")
 		return true
@@ -1319,8 +1496,11 @@ func (c *normCtx) ruleLoopContinue(list []ast.Stmt, ctx listCtx) []ast.Stmt {
 		return list
 	}
 	is, ok := list[len(list)-1].(*ast.IfStmt)
-	if !ok || is.Init != nil || is.Else == nil {
+	if !ok || is.Else == nil {
 		return list
+	}
+	if is.Init != nil {
+		return c.loopElseContinue(list)
 	}
 	var rest *ast.IfStmt
 	switch e := is.Else.(type) {
@@ -1332,7 +1512,7 @@ func (c *normCtx) ruleLoopContinue(list []ast.Stmt, ctx listCtx) []ast.Stmt {
 		}
 	}
 	if rest == nil {
-		return list
+		return c.loopElseContinue(list)
 	}
 	if !endsTerminating(is.Body.List) {
 		is.Body.List = append(is.Body.List, &ast.BranchStmt{TokPos: is.Body.Rbrace, Tok: token.CONTINUE})
@@ -1340,6 +1520,124 @@ func (c *normCtx) ruleLoopContinue(list []ast.Stmt, ctx listCtx) []ast.Stmt {
 	is.Else = nil
 	c.mark("ruleLoopContinue")
 	return append(list, rest)
+}
+
+// loopElseContinue (profile loopElseContinue only): as the LAST statement of a loop body,
+// `if [init;] A { S } else { T… }` -> `if [init;] A { S; continue }; T…`.
+// Sound because nothing follows the statement in the loop body: after S control reaches the end of
+// the body either way, T… runs exactly when A is false. Checked: the if sits directly in the loop
+// body (the `continue` binds to that loop); S does not already end in a jump; T… lies outside the
+// scope of the init statement afterwards, so it must not mention a name the init statement
+// declares; the names T… declares at its top level move into the loop body's scope: they are
+// declared nowhere else in the function; no labels or goto in the function.
+func (c *normCtx) loopElseContinue(list []ast.Stmt) []ast.Stmt {
+	if !c.prof.loopElseContinue || c.fn == nil {
+		return list
+	}
+	is := list[len(list)-1].(*ast.IfStmt)
+	eb, ok := is.Else.(*ast.BlockStmt)
+	if !ok || len(eb.List) == 0 || hasLabelsOrGoto(c.fn) || endsTerminating(is.Body.List) {
+		return list
+	}
+	if !c.movableOut(eb.List, is.Init, nil) {
+		return list
+	}
+	is.Body.List = append(is.Body.List, &ast.BranchStmt{TokPos: is.Body.Rbrace, Tok: token.CONTINUE})
+	is.Else = nil
+	c.mark("ruleLoopContinue")
+	return append(list, eb.List...)
+}
+
+// movableOut: the statements b, now the else block of an if statement with init statement init,
+// can be moved behind that if statement, in front of the statements after. Checked: b mentions
+// no name declared by init; every name b declares at its top level is declared exactly once in
+// the function and is not mentioned in after (which would otherwise come into its scope).
+func (c *normCtx) movableOut(b []ast.Stmt, init ast.Stmt, after []ast.Stmt) bool {
+	if c.fn == nil {
+		return false
+	}
+	if init != nil {
+		for name := range declaredNames(init) {
+			for _, s := range b {
+				if countIdent(s, name) > 0 {
+					return false
+				}
+			}
+		}
+	}
+	dn := declaredNames(c.fn)
+	for _, s := range b {
+		var top map[string]int
+		switch d := s.(type) {
+		case *ast.AssignStmt, *ast.DeclStmt, *ast.LabeledStmt:
+			top = declaredNames(d)
+		}
+		for name := range top {
+			if dn[name] != 1 {
+				return false
+			}
+			for _, a := range after {
+				if countIdent(a, name) > 0 {
+					return false
+				}
+			}
+		}
+	}
+	return true
+}
+
+// ruleElseAfterJump: `if c { A…; J } else { B… }; rest` with J a return, break, continue, goto or
+// panic(…) -> `if c { A…; J }; B…; rest`.
+// Sound because control never flows from the end of the then-block to the statement after the if,
+// so B… is executed exactly when c is false — as before — and rest after B… — as before.
+// Checked: no init statement; movableOut for the scopes (B…'s declarations become visible to
+// rest: rest must not mention those names); no labels or goto in the function.
+func (c *normCtx) ruleElseAfterJump(list []ast.Stmt, _ listCtx) []ast.Stmt {
+	if c.fn == nil {
+		return list
+	}
+	for i, s := range list {
+		is, ok := s.(*ast.IfStmt)
+		if !ok || is.Init != nil || is.Else == nil || !endsTerminating(is.Body.List) {
+			continue
+		}
+		if !c.realJump(is.Body.List[len(is.Body.List)-1]) || hasLabelsOrGoto(c.fn) {
+			continue
+		}
+		var b []ast.Stmt
+		switch e := is.Else.(type) {
+		case *ast.BlockStmt:
+			b = e.List
+		default:
+			b = []ast.Stmt{e}
+		}
+		if !c.movableOut(b, nil, list[i+1:]) {
+			continue
+		}
+		is.Else = nil
+		out := append([]ast.Stmt(nil), list[:i+1]...)
+		out = append(out, b...)
+		out = append(out, list[i+1:]...)
+		c.mark("ruleElseAfterJump")
+		return out
+	}
+	return list
+}
+
+// realJump: s is a return, an unlabeled break / continue, or a call of the builtin panic (checked
+// with go/types: endsTerminating only looks at the name).
+func (c *normCtx) realJump(s ast.Stmt) bool {
+	switch x := s.(type) {
+	case *ast.ReturnStmt:
+		return true
+	case *ast.BranchStmt:
+		return x.Label == nil && (x.Tok == token.BREAK || x.Tok == token.CONTINUE)
+	case *ast.ExprStmt:
+		if call, ok := x.X.(*ast.CallExpr); ok {
+			return c.isBuiltin(call.Fun, "panic")
+		}
+	}
+	return false
 }
 
 // ruleSwitchToIf: `switch { case c1: A; case c2, c3: B; default: C }` -> `if c1 {A} else if c2 || c3 {B} else {C}`.
@@ -1705,6 +2003,33 @@ type earlyScan struct {
 	c  *normCtx
 	x  types.Object
 	ok bool
+	// harmless, when set, replaces localScalarStore as the test "a store to this operand cannot
+	// change what the scan protects"; strictDefine makes a `:=` that re-assigns an existing
+	// variable count as a store to it (ruleHeaderAlias sets both).
+	harmless     func(lhs ast.Expr) bool
+	strictDefine bool
+}
+
+func (s *earlyScan) storeOK(lhs ast.Expr) bool {
+	if s.harmless != nil {
+		return s.harmless(lhs)
+	}
+	return s.localScalarStore(lhs)
+}
+
+// newDef: lhs is `_` or an identifier that this very statement declares (go/types: a definition).
+func (s *earlyScan) newDef(lhs ast.Expr) bool { return s.c.isNewDef(lhs) }
+
+func (c *normCtx) isNewDef(lhs ast.Expr) bool {
+	id, ok := lhs.(*ast.Ident)
+	if !ok {
+		return false
+	}
+	if id.Name == "_" {
+		return true
+	}
+	t, ok := c.pair[id].(*ast.Ident)
+	return ok && c.pkg.info.Defs[t] != nil
 }
 
 // localScalarStore: a store to lhs only changes a local variable that cannot be (part of) the
@@ -1773,17 +2098,17 @@ func (s *earlyScan) stmt(st ast.Stmt, dirty bool) bool {
 		all := append(append([]ast.Expr(nil), x.Rhs...), x.Lhs...)
 		d := s.exprs(dirty, all...)
 		for _, l := range x.Lhs {
-			if x.Tok == token.DEFINE {
+			if x.Tok == token.DEFINE && (!s.strictDefine || s.newDef(l)) {
 				continue // new locals
 			}
-			if !s.localScalarStore(l) {
+			if !s.storeOK(l) {
 				d = true
 			}
 		}
 		return d
 	case *ast.IncDecStmt:
 		d := s.exprs(dirty, x.X)
-		if !s.localScalarStore(x.X) {
+		if !s.storeOK(x.X) {
 			d = true
 		}
 		return d
@@ -1862,15 +2187,16 @@ func (c *normCtx) hasMemoryStore(n ast.Node, s *earlyScan) bool {
 	ast.Inspect(n, func(x ast.Node) bool {
 		switch y := x.(type) {
 		case *ast.AssignStmt:
-			if y.Tok != token.DEFINE {
-				for _, l := range y.Lhs {
-					if !s.localScalarStore(l) {
-						hit = true
-					}
+			for _, l := range y.Lhs {
+				if y.Tok == token.DEFINE && (!s.strictDefine || s.newDef(l)) {
+					continue
+				}
+				if !s.storeOK(l) {
+					hit = true
 				}
 			}
 		case *ast.IncDecStmt:
-			if !s.localScalarStore(y.X) {
+			if !s.storeOK(y.X) {
 				hit = true
 			}
 		case *ast.RangeStmt:
@@ -2154,6 +2480,593 @@ func (c *normCtx) rulePtrLocal(list []ast.Stmt, ctx listCtx) []ast.Stmt {
 	return rest
 }
 
+// guardedFirstElem: list is the then-block of `if len(x) > 0 {` (no init) and its first statement
+// is `v := <op>x[0]` with x an identifier of slice type denoting the guard's variable; returns v,
+// the right-hand side and x. op is "" or "&".
+func (c *normCtx) guardedFirstElem(list []ast.Stmt, ctx listCtx, addr bool) (v *ast.Ident, ix *ast.IndexExpr, x *ast.Ident) {
+	if ctx.guard == nil || len(list) == 0 || ctx.guard.Init != nil {
+		return nil, nil, nil
+	}
+	as, ok := list[0].(*ast.AssignStmt)
+	if !ok || as.Tok != token.DEFINE || len(as.Lhs) != 1 || len(as.Rhs) != 1 {
+		return nil, nil, nil
+	}
+	v, ok = as.Lhs[0].(*ast.Ident)
+	if !ok || v.Name == "_" {
+		return nil, nil, nil
+	}
+	rhs := as.Rhs[0]
+	if addr {
+		u, ok := rhs.(*ast.UnaryExpr)
+		if !ok || u.Op != token.AND {
+			return nil, nil, nil
+		}
+		rhs = u.X
+	}
+	ix, ok = rhs.(*ast.IndexExpr)
+	if !ok || !isIntLit(ix.Index, "0") {
+		return nil, nil, nil
+	}
+	x, ok = ix.X.(*ast.Ident)
+	if !ok {
+		return nil, nil, nil
+	}
+	g, ok := unparen(ctx.guard.Cond).(*ast.BinaryExpr)
+	if !ok || g.Op != token.GTR || !isIntLit(g.Y, "0") {
+		return nil, nil, nil
+	}
+	gc, ok := g.X.(*ast.CallExpr)
+	if !ok || len(gc.Args) != 1 || !c.isBuiltin(gc.Fun, "len") {
+		return nil, nil, nil
+	}
+	gx, ok := gc.Args[0].(*ast.Ident)
+	if !ok || gx.Name != x.Name || c.objOf(gx) == nil || c.objOf(gx) != c.objOf(x) {
+		return nil, nil, nil
+	}
+	if t := c.typeOf(x); t == nil {
+		return nil, nil, nil
+	} else if _, isSlice := t.Underlying().(*types.Slice); !isSlice {
+		return nil, nil, nil
+	}
+	return v, ix, x
+}
+
+func isComposite(t types.Type) bool {
+	if t == nil {
+		return true // unknown: assume the worst
+	}
+	switch t.Underlying().(type) {
+	case *types.Struct, *types.Array:
+		return true
+	}
+	return false
+}
+
+// fieldSel: e is a field selection `X.f` (go/types: FieldVal); returns the selection.
+func (c *normCtx) fieldSel(e ast.Expr) *types.Selection {
+	se, ok := e.(*ast.SelectorExpr)
+	if !ok {
+		return nil
+	}
+	ts, ok := c.pair[se].(*ast.SelectorExpr)
+	if !ok {
+		return nil
+	}
+	sel := c.pkg.info.Selections[ts]
+	if sel == nil || sel.Kind() != types.FieldVal {
+		return nil
+	}
+	return sel
+}
+
+// fieldParent: the struct type that directly declares the field picked by sel.
+func fieldParent(sel *types.Selection) *types.Struct {
+	t := sel.Recv()
+	idx := sel.Index()
+	for k, i := range idx {
+		if p, ok := t.Underlying().(*types.Pointer); ok {
+			t = p.Elem()
+		}
+		st, ok := t.Underlying().(*types.Struct)
+		if !ok || i >= st.NumFields() {
+			return nil
+		}
+		if k == len(idx)-1 {
+			return st
+		}
+		t = st.Field(i).Type()
+	}
+	return nil
+}
+
+// ruleElemLocal: as the first statements of the then-block of `if len(x) > 0 {`,
+// `v := x[0]; L1 = v.f1; …; Ln = v.fn` (v used nowhere else) -> `L1 = x[0].f1; …; Ln = x[0].fn`.
+// Sound because — all checked —
+//   - x is a stableLocal of slice type whose length was just tested to be positive, so x[0] cannot
+//     panic, now or later (x's header never changes), and denotes the same variable every time;
+//   - v is a stableLocal whose only uses are the right-hand sides v.fi of the n assignments that
+//     directly follow its declaration, each a FIELD selection: v.fi is the value x[0].fi had when v
+//     was copied;
+//   - that is still the value of x[0].fi when assignment i runs: the only things executed in between
+//     are the evaluations of L1 … Li (pureExpr: no calls) and the stores to L1 … L(i-1). Such a store
+//     cannot change x[0].fi: both are variables of non-composite type (no struct, no array), so they
+//     overlap only if they are the SAME variable, and then the structs directly containing them
+//     would be the same variable too — excluded, because those two struct types are not identical
+//     (not even ignoring tags, so no pointer conversion can make one alias the other). A store to Lj
+//     cannot change the header of x either (x is never assigned: stableLocal; Lj is not rooted in x
+//     or v by pureExpr + stableLocal).
+func (c *normCtx) ruleElemLocal(list []ast.Stmt, ctx listCtx) []ast.Stmt {
+	v, ix, x := c.guardedFirstElem(list, ctx, false)
+	if v == nil || !c.stableLocal(x) || !c.stableLocal(v) {
+		return list
+	}
+	vobj := c.objOf(v)
+	if vobj == nil || isComposite(c.typeOf(x)) {
+		return list
+	}
+	rest := list[1:]
+	total, names := 0, 0
+	for _, r := range rest {
+		total += c.countObj(r, vobj)
+		names += countIdent(r, v.Name)
+	}
+	if total == 0 || total != names || total > len(rest) {
+		return list
+	}
+	for k := 0; k < total; k++ {
+		as, ok := rest[k].(*ast.AssignStmt)
+		if !ok || as.Tok != token.ASSIGN || len(as.Lhs) != 1 || len(as.Rhs) != 1 {
+			return list
+		}
+		// right-hand side: v.f, a field of non-composite type
+		rs := c.fieldSel(as.Rhs[0])
+		if rs == nil {
+			return list
+		}
+		if id, ok := as.Rhs[0].(*ast.SelectorExpr).X.(*ast.Ident); !ok || c.objOf(id) != vobj {
+			return list
+		}
+		// left-hand side: a pure field selection of non-composite type in a different struct type
+		lhs := as.Lhs[0]
+		ls := c.fieldSel(lhs)
+		if ls == nil || !pureExpr(lhs) || c.usesObj(lhs, vobj) || c.usesObj(lhs, c.objOf(x)) {
+			return list
+		}
+		if isComposite(c.typeOf(lhs)) || isComposite(c.typeOf(as.Rhs[0])) {
+			return list
+		}
+		lp, rp := fieldParent(ls), fieldParent(rs)
+		if lp == nil || rp == nil || types.IdenticalIgnoreTags(lp, rp) {
+			return list
+		}
+	}
+	for k := 0; k < total; k++ {
+		c.substObj(rest[k], vobj, ix)
+	}
+	c.mark("ruleElemLocal")
+	return rest
+}
+
+// nilPanicOnly: identifiers, basic literals, field selections, dereferences, parentheses — no
+// calls, no indexing, no conversions, no arithmetic: evaluating e has no effect, and the only way
+// it can fail is a nil-pointer dereference (always the same run-time error value).
+func (c *normCtx) nilPanicOnly(e ast.Expr) bool {
+	switch x := e.(type) {
+	case *ast.Ident:
+		return !c.isTypeExpr(x)
+	case *ast.BasicLit:
+		return true
+	case *ast.ParenExpr:
+		return c.nilPanicOnly(x.X)
+	case *ast.StarExpr:
+		return !c.isTypeExpr(x) && c.nilPanicOnly(x.X)
+	case *ast.SelectorExpr:
+		if c.fieldSel(x) != nil {
+			return c.nilPanicOnly(x.X)
+		}
+		// a qualified identifier pkg.Name: a package-level variable, constant or function
+		if id, ok := x.X.(*ast.Ident); ok {
+			if _, isPkg := c.objOf(id).(*types.PkgName); isPkg {
+				return true
+			}
+		}
+	}
+	return false
+}
+
+// ruleFwdLocal: `v := E; return f(a1, …, an)` with v one of the ai (or `return v`), v used nowhere
+// else -> `return f(a1, …, E, …, an)`.
+// Sound because — all checked — E, f and every ai are nilPanicOnly expressions: no calls, stores,
+// indexing or arithmetic, so evaluating them in any order has no effect and reads the same
+// values (nothing is stored between the declaration of v and the call); the only possible failure
+// of any of them is a nil dereference, which is the same run-time panic whichever operand raises
+// it first; the call of f happens after all operands are evaluated in both forms. v is declared
+// once, used exactly once (in that return statement, not inside a closure: there is none), and
+// the return directly follows the declaration and ends the list. E is not a constant (a
+// constant's type could depend on its new context); v has exactly E's type.
+func (c *normCtx) ruleFwdLocal(list []ast.Stmt, _ listCtx) []ast.Stmt {
+	if len(list) < 2 || c.fn == nil {
+		return list
+	}
+	i := len(list) - 2
+	as, ok := list[i].(*ast.AssignStmt)
+	ret, ok2 := list[i+1].(*ast.ReturnStmt)
+	if !ok || !ok2 || as.Tok != token.DEFINE || len(as.Lhs) != 1 || len(as.Rhs) != 1 || len(ret.Results) != 1 {
+		return list
+	}
+	v, ok := as.Lhs[0].(*ast.Ident)
+	if !ok || v.Name == "_" || !c.isLocalVar(v) {
+		return list
+	}
+	e := as.Rhs[0]
+	if !c.nilPanicOnly(e) || !pureExpr(e) {
+		return list
+	}
+	te, ok := c.pair[e].(ast.Expr)
+	if !ok {
+		return list
+	}
+	if tv, ok := c.pkg.info.Types[te]; !ok || tv.Value != nil || tv.IsNil() || tv.IsType() || !tv.IsValue() {
+		return list
+	}
+	vobj := c.objOf(v)
+	if vobj == nil || !types.Identical(vobj.Type(), c.typeOf(e)) {
+		return list
+	}
+	// exactly two occurrences of the name in the function: the declaration and one use in ret
+	if declaredNames(c.fn)[v.Name] != 1 || countIdent(c.fn, v.Name) != 2 || c.countObj(ret, vobj) != 1 {
+		return list
+	}
+	operands := []ast.Expr{ret.Results[0]}
+	if call, ok := ret.Results[0].(*ast.CallExpr); ok && !call.Ellipsis.IsValid() && !c.isTypeExpr(call.Fun) {
+		if id, isId := call.Fun.(*ast.Ident); isId {
+			if _, builtin := c.objOf(id).(*types.Builtin); builtin {
+				return list
+			}
+		}
+		operands = append([]ast.Expr{call.Fun}, call.Args...)
+	}
+	direct := false
+	for _, o := range operands {
+		if !c.nilPanicOnly(o) {
+			return list
+		}
+		if id, ok := o.(*ast.Ident); ok && c.objOf(id) == vobj {
+			direct = true
+		}
+	}
+	if !direct {
+		return list
+	}
+	c.substObj(ret, vobj, e)
+	c.mark("ruleFwdLocal")
+	return append(list[:i:i], ret)
+}
+
+// ruleHeaderAlias: `k := E; *p = k; … k …` -> `*p = E; … (*p) …`  (declaration of k removed).
+// Sound because — all checked —
+//   - p is a stableLocal of pointer type, so `*p` names the same variable at every point; k is a
+//     stableLocal with exactly the type of *p, which is not a struct or array type (so the only
+//     store that can change *p is a store to a variable of that very type, or to a struct / array
+//     containing one: cannotHold);
+//   - `*p = E` evaluates E, then stores: the same as `k := E; *p = k` (E cannot mention k; a nil p
+//     panics after E is evaluated in both forms);
+//   - right after the store, *p == k. Every later use of k is reached before anything that could
+//     change *p (earlyScan: no call, closure, go, defer, send, receive, and no store — `:=` that
+//     re-assigns included — to storage that can hold a variable of that type); k itself never
+//     changes. So reading (*p) there yields k's value;
+//   - k is used only as a value (the substitution is by object; every occurrence of the name is
+//     such a use; no closure captures it).
+func (c *normCtx) ruleHeaderAlias(list []ast.Stmt, _ listCtx) []ast.Stmt {
+	for i := 0; i+1 < len(list); i++ {
+		d, ok := list[i].(*ast.AssignStmt)
+		st, ok2 := list[i+1].(*ast.AssignStmt)
+		if !ok || !ok2 || d.Tok != token.DEFINE || len(d.Lhs) != 1 || len(d.Rhs) != 1 ||
+			st.Tok != token.ASSIGN || len(st.Lhs) != 1 || len(st.Rhs) != 1 {
+			continue
+		}
+		k, ok := d.Lhs[0].(*ast.Ident)
+		if !ok || k.Name == "_" {
+			continue
+		}
+		star, ok := st.Lhs[0].(*ast.StarExpr)
+		if !ok {
+			continue
+		}
+		p, ok := star.X.(*ast.Ident)
+		rk, ok2 := st.Rhs[0].(*ast.Ident)
+		if !ok || !ok2 || !c.stableLocal(p) || !c.stableLocal(k) {
+			continue
+		}
+		kobj := c.objOf(k)
+		if kobj == nil || c.objOf(rk) != kobj || c.objOf(p) == kobj {
+			continue
+		}
+		tp := c.typeOf(p)
+		if tp == nil {
+			continue
+		}
+		pt, ok := tp.Underlying().(*types.Pointer)
+		if !ok || isComposite(pt.Elem()) || !types.Identical(pt.Elem(), kobj.Type()) {
+			continue
+		}
+		if countIdent(d.Rhs[0], k.Name) > 0 {
+			continue
+		}
+		header := pt.Elem()
+		rest := list[i+2:]
+		uses, names := 0, 0
+		captured := false
+		for _, r := range rest {
+			uses += c.countObj(r, kobj)
+			names += countIdent(r, k.Name)
+			ast.Inspect(r, func(n ast.Node) bool {
+				if fl, ok := n.(*ast.FuncLit); ok && countIdent(fl, k.Name) > 0 {
+					captured = true
+				}
+				return !captured
+			})
+		}
+		if uses != names || captured {
+			continue
+		}
+		sc := &earlyScan{c: c, x: kobj, ok: true, strictDefine: true}
+		sc.harmless = func(l ast.Expr) bool {
+			if id, isId := l.(*ast.Ident); isId && id.Name == "_" {
+				return true
+			}
+			return cannotHold(c.typeOf(l), header)
+		}
+		sc.stmts(rest, false)
+		if !sc.ok {
+			continue
+		}
+		repl := &ast.ParenExpr{Lparen: star.Pos(), X: c.cloneExpr(star), Rparen: star.End()}
+		for _, r := range rest {
+			c.substObj(r, kobj, repl)
+		}
+		st.Rhs[0] = d.Rhs[0]
+		c.mark("ruleHeaderAlias")
+		out := append([]ast.Stmt(nil), list[:i]...)
+		return append(out, list[i+1:]...)
+	}
+	return list
+}
+
+// trivialCall: call is x.m(…) where m is a method (go/types) all of whose implementations in the
+// package are `return <call-free expression>` (normMethodsTrivial): it stores and calls nothing.
+func (c *normCtx) trivialCall(call *ast.CallExpr) bool {
+	se, ok := call.Fun.(*ast.SelectorExpr)
+	if !ok {
+		return false
+	}
+	ts, ok := c.pair[se].(*ast.SelectorExpr)
+	if !ok {
+		return false
+	}
+	sel := c.pkg.info.Selections[ts]
+	if sel == nil || sel.Kind() != types.MethodVal || sel.Obj().Pkg() != c.pkg.pkg {
+		return false
+	}
+	name := se.Sel.Name
+	if c.pkg.trivial == nil {
+		c.pkg.trivial = map[string]bool{}
+	}
+	v, known := c.pkg.trivial[name]
+	if !known {
+		v = normMethodsTrivial(filepath.Dir(c.fset.Position(c.file.Package).Filename), name)
+		c.pkg.trivial[name] = v
+	}
+	return v
+}
+
+// effectFree: below n nothing is called (except len, cap, conversions and trivialCalls), there is no
+// closure, receive, go, defer, send or select.
+func (c *normCtx) effectFree(n ast.Node) bool {
+	if n == nil || reflect.ValueOf(n).IsNil() {
+		return true
+	}
+	good := true
+	ast.Inspect(n, func(x ast.Node) bool {
+		switch y := x.(type) {
+		case *ast.CallExpr:
+			if !(c.isBuiltin(y.Fun, "len") || c.isBuiltin(y.Fun, "cap") || c.isTypeExpr(y.Fun) || c.trivialCall(y)) {
+				good = false
+			}
+		case *ast.FuncLit, *ast.GoStmt, *ast.DeferStmt, *ast.SendStmt, *ast.SelectStmt:
+			good = false
+		case *ast.UnaryExpr:
+			if y.Op == token.ARROW {
+				good = false
+			}
+		}
+		return good
+	})
+	return good
+}
+
+// aliasWalk replaces reads of the local y by its defining expression while that is provably
+// still y's value (see ruleAliasRead).
+type aliasWalk struct {
+	c     *normCtx
+	y     types.Object
+	name  string
+	def   ast.Expr   // X.f
+	ftype types.Type // its type
+	did   bool
+}
+
+// quiet: nothing below n can change y or the value of def: no effects (effectFree), no assignment
+// to y, no store to storage that could hold a variable of def's type, no labels or jumps out.
+func (w *aliasWalk) quiet(n ast.Node) bool {
+	if n == nil || reflect.ValueOf(n).IsNil() {
+		return true
+	}
+	if !w.c.effectFree(n) {
+		return false
+	}
+	good := true
+	store := func(l ast.Expr) {
+		if id, ok := l.(*ast.Ident); ok && id.Name == "_" {
+			return
+		}
+		if !cannotHold(w.c.typeOf(l), w.ftype) {
+			good = false
+		}
+	}
+	ast.Inspect(n, func(x ast.Node) bool {
+		switch z := x.(type) {
+		case *ast.AssignStmt:
+			for _, l := range z.Lhs {
+				if z.Tok == token.DEFINE && w.c.isNewDef(l) {
+					continue // a variable declared here is neither y nor part of *X
+				}
+				store(l)
+			}
+		case *ast.IncDecStmt:
+			store(z.X)
+		case *ast.RangeStmt:
+			if z.Tok == token.ASSIGN {
+				good = false
+			}
+		case *ast.LabeledStmt:
+			good = false
+		case *ast.BranchStmt:
+			if z.Tok == token.GOTO || z.Label != nil {
+				good = false
+			}
+		}
+		return good
+	})
+	return good
+}
+
+func (w *aliasWalk) subst(n ast.Node) {
+	if n == nil || reflect.ValueOf(n).IsNil() {
+		return
+	}
+	if w.c.countObj(n, w.y) > 0 {
+		w.c.substObj(n, w.y, w.def)
+		w.did = true
+	}
+}
+
+// stmts walks a statement list in execution order; it returns whether the invariant y == def
+// still holds after the list. Once it is lost nothing further is touched.
+func (w *aliasWalk) stmts(list []ast.Stmt) bool {
+	for _, st := range list {
+		if !w.stmt(st) {
+			return false
+		}
+	}
+	return true
+}
+
+func (w *aliasWalk) stmt(st ast.Stmt) bool {
+	switch x := st.(type) {
+	case nil:
+		return true
+	case *ast.IfStmt:
+		if x.Init != nil && !w.stmt(x.Init) {
+			return false
+		}
+		if !w.quiet(x.Cond) {
+			return false
+		}
+		w.subst(x.Cond)
+		a := w.stmts(x.Body.List)
+		b := true
+		if x.Else != nil {
+			b = w.stmt(x.Else)
+		}
+		return a && b
+	case *ast.BlockStmt:
+		return w.stmts(x.List)
+	}
+	if !w.quiet(st) {
+		return false
+	}
+	w.subst(st)
+	return true
+}
+
+// ruleAliasRead: `y := X.f; …` (f of slice type) — in the statements that follow, while nothing can
+// have changed y or X.f, a read of y is replaced by X.f (the declaration stays: y is assigned later).
+// Sound because — all checked —
+//   - X is a stableLocal of pointer-to-struct type and f a field declared directly in that struct
+//     (no embedded pointer in between): X.f names the same variable at every point, and as
+//     `y := X.f` was executed without panic, X is not nil;
+//   - y is a local that is never addressed and never mentioned in a closure, and every occurrence
+//     of its name in the rest of the block denotes it; the function has no labels or goto (control
+//     enters the statements after the declaration only through the declaration); it IS assigned somewhere (otherwise the
+//     rule does not apply: locals that never change are the business of other rules);
+//   - the walk (aliasWalk) follows the statements after the declaration in execution order
+//     through if statements and blocks and replaces reads of y only as long as everything executed
+//     since the declaration is `quiet`: no call other than len, cap, conversions and methods all of
+//     whose implementations in the package are a bare `return <call-free expression>`
+//     (normMethodsTrivial — they store nothing), no closure, go, defer, send, receive, no
+//     assignment to y, and no store to storage that could hold a variable of f's type (cannotHold),
+//     so X.f still holds the value copied into y. After an if statement the walk continues only if
+//     both branches were quiet throughout. Loops, switches and any other statement are handled as
+//     a unit: quiet as a whole, or the walk ends before them.
+func (c *normCtx) ruleAliasRead(list []ast.Stmt, _ listCtx) []ast.Stmt {
+	if c.fn == nil {
+		return list
+	}
+	for i, s := range list {
+		as, ok := s.(*ast.AssignStmt)
+		if !ok || as.Tok != token.DEFINE || len(as.Lhs) != 1 || len(as.Rhs) != 1 {
+			continue
+		}
+		y, ok := as.Lhs[0].(*ast.Ident)
+		if !ok || y.Name == "_" || !c.isLocalVar(y) {
+			continue
+		}
+		se, ok := as.Rhs[0].(*ast.SelectorExpr)
+		if !ok {
+			continue
+		}
+		x, ok := se.X.(*ast.Ident)
+		sel := c.fieldSel(se)
+		if !ok || sel == nil || len(sel.Index()) != 1 || !c.stableLocal(x) {
+			continue
+		}
+		if pt, ok := c.typeOf(x).Underlying().(*types.Pointer); !ok {
+			continue
+		} else if _, isStruct := pt.Elem().Underlying().(*types.Struct); !isStruct {
+			continue
+		}
+		yobj := c.objOf(y)
+		ft := c.typeOf(se)
+		if yobj == nil || ft == nil || isComposite(ft) || !types.Identical(ft, yobj.Type()) {
+			continue
+		}
+		// which spelling is canonical (not a soundness matter): only slice headers are read through
+		// the original field, scalars copied into a working variable (`index := i.number`) are not
+		if _, isSlice := ft.Underlying().(*types.Slice); !isSlice {
+			continue
+		}
+		if declaredNames(c.fn)[y.Name] != 1 || c.addressedOrCaptured(c.fn, y.Name) || !c.writtenOrAddressed(c.fn, y.Name) || hasLabelsOrGoto(c.fn) {
+			continue
+		}
+		rest := list[i+1:]
+		uses, names := 0, 0
+		for _, r := range rest {
+			uses += c.countObj(r, yobj)
+			names += countIdent(r, y.Name)
+		}
+		if uses != names || uses == 0 {
+			continue
+		}
+		w := &aliasWalk{c: c, y: yobj, name: y.Name, def: se, ftype: ft}
+		w.stmts(rest)
+		if w.did {
+			c.mark("ruleAliasRead")
+		}
+	}
+	return list
+}
+
 // ruleCopyLoop: `dst := make(T, len(src)); copy(dst, src)` -> `dst := make(T, len(src)); for index := range dst { dst[index] = src[index] }`.
 // Sound because — checked — copy is the builtin, src is a pure operand (identifiers and field
 // selections) of slice type, written identically in both places with nothing in between, so
@@ -2318,8 +3231,8 @@ func (c *normCtx) ruleTailSplit(list []ast.Stmt, ctx listCtx) []ast.Stmt {
 	for _, s := range b {
 		for name, k := range declaredNames(s) {
 			_ = k
-			if dn[name] != 1 {
-				return list
+			if dn[name] != 1 || countIdent(last, name) > 0 {
+				return list // (the returned operand would come into the scope of B's declaration)
 			}
 		}
 	}
@@ -2338,28 +3251,66 @@ func (c *normCtx) ruleTailSplit(list []ast.Stmt, ctx listCtx) []ast.Stmt {
 
 // ---- helper inlining (undoes "extract function")
 
-// A helper is an unexported function or method declared in the file being normalised whose every
-// use in the whole package is a call site in this file that can be inlined. All its call sites
-// are inlined and the declaration is dropped from the generator's view; if any use cannot be
-// inlined, nothing is done for that helper (the generator then refuses the call).
+// A helper is an unexported function or method of the package whose every use in the whole
+// package is a call site that can be inlined — in whatever file it stands. Its call sites in the
+// file being normalised are inlined, and if it is declared in this file the declaration is dropped
+// from the generator's view; the other files are treated the same way when they are normalised
+// (the decision is taken on the whole package each time). If any use cannot be inlined, nothing
+// is done for that helper (the generator then refuses the call). A helper none of whose callers
+// stands in the file that declares it is left alone: that is how the library itself is organised.
 
 type normSite struct {
 	caller *ast.FuncDecl
 	call   *ast.CallExpr
-	kind   int // 1 `return h(…)`, 2 `h(…)` as a statement, 3 `if h(a) {…}`, 4 `if !h(a) {…}`
+	kind   int  // 1 `return h(…)`, 2 `h(…)` as a statement, 3 `if h(a) {…}`, 4 `if !h(a) {…}`
+	local  bool // the caller is a function of the file being normalised
+}
+
+const normInlineRounds = 8
+
+func helperCandidate(h *ast.FuncDecl) bool {
+	return h.Body != nil && !ast.IsExported(h.Name.Name) && h.Name.Name != "init" && h.Name.Name != "main" && h.Name.Name != "_"
 }
 
 func (c *normCtx) inlineHelpers() {
-	for round := 0; round < 4; round++ {
+	base := filepath.Base(c.fset.Position(c.file.Package).Filename)
+	for round := 0; round < normInlineRounds; round++ {
 		done := false
+		// helpers declared in this file
 		for _, d := range c.file.Decls {
 			h, ok := d.(*ast.FuncDecl)
-			if !ok || h.Body == nil || ast.IsExported(h.Name.Name) || h.Name.Name == "init" || h.Name.Name == "main" || h.Name.Name == "_" {
+			if !ok || !helperCandidate(h) {
 				continue
 			}
-			if c.inlineHelper(h) {
+			if c.inlineHelper(h, base) {
 				done = true
 				break // c.file.Decls changed
+			}
+		}
+		// helpers declared in another file of the package and called in this one
+		if !done {
+			names := identNames(c.file)
+			for _, n := range c.pkg.names {
+				if n == base || done {
+					continue
+				}
+				for _, d := range c.pkg.files[n].Decls {
+					h, ok := d.(*ast.FuncDecl)
+					if !ok || !helperCandidate(h) || !names[h.Name.Name] {
+						continue
+					}
+					// the cheap tests of inlineHelper first: pairing a whole file costs time
+					hobj, isFunc := c.pkg.info.Defs[h.Name].(*types.Func)
+					if !isFunc || c.pkg.useCount[hobj] == 0 || c.pkg.identCount[h.Name.Name] != c.pkg.useCount[hobj]+1 ||
+						c.pkg.fileIdents[n][h.Name.Name] < 2 || !helperBodyOK(h) {
+						continue
+					}
+					c.pairIdentity(c.pkg.files[n])
+					if c.inlineHelper(h, base) {
+						done = true
+						break
+					}
+				}
 			}
 		}
 		if !done {
@@ -2406,7 +3357,9 @@ func helperBodyOK(h *ast.FuncDecl) bool {
 	return ok
 }
 
-func (c *normCtx) inlineHelper(h *ast.FuncDecl) bool {
+// inlineHelper: h is declared in the file being normalised (a node of the generator's AST) or in
+// another file of the package (a node of the typed AST, paired with itself).
+func (c *normCtx) inlineHelper(h *ast.FuncDecl, base string) bool {
 	th, ok := c.pair[h.Name].(*ast.Ident)
 	if !ok {
 		return false
@@ -2416,27 +3369,59 @@ func (c *normCtx) inlineHelper(h *ast.FuncDecl) bool {
 		return false
 	}
 	// every use of the helper in the package
-	totalUses := 0
-	for _, o := range c.pkg.info.Uses {
-		if o == hobj {
-			totalUses++
-		}
-	}
+	totalUses := c.pkg.useCount[hobj]
 	if totalUses == 0 || c.pkg.identCount[h.Name.Name] != totalUses+1 {
 		return false // unused, or the name also occurs elsewhere (interface method, field, …)
 	}
-	// the call sites in this file
-	var sites []normSite
-	usesHere := 0
-	for _, d := range c.file.Decls {
-		fd, ok := d.(*ast.FuncDecl)
-		if !ok || fd.Body == nil || fd == h {
-			continue
-		}
-		usesHere += c.countObj(fd, hobj)
-		sites = append(sites, c.findSites(fd, hobj)...)
+	// (cheap pre-test of the rule at the end: the declaring file holds a use next to the declaration)
+	if df := filepath.Base(c.pkg.fset.Position(th.Pos()).Filename); c.pkg.fileIdents[df][h.Name.Name] < 2 {
+		return false
 	}
-	if usesHere != totalUses || len(sites) != totalUses {
+	// the call sites, file by file: this file as the generator sees it, the others as type-checked
+	var sites []normSite
+	uses := 0
+	hLocal, anyLocal := false, false
+	hFile, callerFiles := "", map[string]bool{}
+	for _, n := range c.pkg.names {
+		local := n == base
+		file := c.pkg.files[n]
+		if local {
+			file = c.file
+		} else if c.pkg.fileIdents[n][h.Name.Name] == 0 {
+			continue
+		} else {
+			c.pairIdentity(file)
+		}
+		for _, d := range file.Decls {
+			fd, ok := d.(*ast.FuncDecl)
+			if !ok || fd.Body == nil {
+				continue
+			}
+			if fd == h {
+				hLocal = local
+				hFile = n
+				continue
+			}
+			k := c.countObj(fd, hobj)
+			if k == 0 {
+				continue
+			}
+			callerFiles[n] = true
+			uses += k
+			for _, s := range c.findSites(fd, hobj) {
+				s.local = local
+				anyLocal = anyLocal || local
+				sites = append(sites, s)
+			}
+		}
+	}
+	if uses != totalUses || len(sites) != totalUses || !(hLocal || anyLocal) {
+		return false
+	}
+	// Which spelling is canonical (not a soundness matter): a helper that is called in the file that
+	// declares it is taken to be a local extraction and is inlined; a helper none of whose callers
+	// shares its file (putSortSlice, merge) is part of the library's own structure and is kept.
+	if !callerFiles[hFile] {
 		return false
 	}
 	pred := c.predicateHelper(h)
@@ -2452,25 +3437,31 @@ func (c *normCtx) inlineHelper(h *ast.FuncDecl) bool {
 			}
 		}
 	}
-	// all sites are fine: rewrite them
+	// all sites are fine: rewrite those of this file
 	for _, s := range sites {
+		if !s.local {
+			continue
+		}
 		c.fn = s.caller
 		switch s.kind {
 		case 1, 2:
-			c.spliceBody(h, s)
+			c.spliceBody(h, s, !hLocal)
 		case 3, 4:
 			c.splicePredicate(pred, s)
 		}
-		c.mark("inlineHelper")
+		c.mark("inlineHelper " + h.Name.Name)
 	}
 	c.fn = nil
-	var decls []ast.Decl
-	for _, d := range c.file.Decls {
-		if d != ast.Decl(h) {
-			decls = append(decls, d)
+	if hLocal {
+		var decls []ast.Decl
+		for _, d := range c.file.Decls {
+			if d != ast.Decl(h) {
+				decls = append(decls, d)
+			}
 		}
+		c.file.Decls = decls
+		c.mark("inlineHelper(drop) " + h.Name.Name)
 	}
-	c.file.Decls = decls
 	return true
 }
 
@@ -2497,20 +3488,20 @@ func (c *normCtx) findSites(fd *ast.FuncDecl, hobj types.Object) []normSite {
 			case *ast.ReturnStmt:
 				if len(s.Results) == 1 {
 					if call, ok := s.Results[0].(*ast.CallExpr); ok && c.calleeIs(call, hobj) {
-						sites = append(sites, normSite{fd, call, 1})
+						sites = append(sites, normSite{caller: fd, call: call, kind: 1})
 					}
 				}
 			case *ast.ExprStmt:
 				if call, ok := s.X.(*ast.CallExpr); ok && c.calleeIs(call, hobj) {
-					sites = append(sites, normSite{fd, call, 2})
+					sites = append(sites, normSite{caller: fd, call: call, kind: 2})
 				}
 			case *ast.IfStmt:
 				if s.Init == nil && s.Else == nil {
 					if call, ok := unparen(s.Cond).(*ast.CallExpr); ok && c.calleeIs(call, hobj) {
-						sites = append(sites, normSite{fd, call, 3})
+						sites = append(sites, normSite{caller: fd, call: call, kind: 3})
 					} else if u, ok := unparen(s.Cond).(*ast.UnaryExpr); ok && u.Op == token.NOT {
 						if call, ok := unparen(u.X).(*ast.CallExpr); ok && c.calleeIs(call, hobj) {
-							sites = append(sites, normSite{fd, call, 4})
+							sites = append(sites, normSite{caller: fd, call: call, kind: 4})
 						}
 					}
 				}
@@ -2603,18 +3594,33 @@ func siteArgs(h *ast.FuncDecl, call *ast.CallExpr) []ast.Expr {
 //   - h has no defer, go, closure, recover, label, goto, named result, variadic parameter and is
 //     not recursive (helperBodyOK): its body means the same in the caller's frame, `return e` in it
 //     returns e from the caller, which is what `return h(…)` does with h's result;
-//   - for `return h(…)`: h and the caller both have exactly one result, of identical type
-//     (go/types), so e is converted to the same type in both programs; every path through h's body
-//     ends in a return (Go requires it), so nothing after the call site is reached;
+//   - for `return h(…)`: h and the caller both have exactly one result. Either the two result
+//     types are identical (go/types), so e is converted to the same type in both programs; or every
+//     `return e` of h returns a non-constant, non-nil e whose static type is exactly h's result type
+//     T: then h's own return converts nothing, and the caller's `return h(…)` and the inlined
+//     `return e` both convert a value of static type T to the caller's result type (an untyped
+//     constant or nil would be converted differently, hence excluded). Every path through h's
+//     body ends in a return (Go requires it), so nothing after the call site is reached;
 //     for the statement form: h has no result and its body contains no return at all;
 //   - every argument (and the receiver operand) is a plain local variable of the caller whose
 //     type is identical to the parameter's type (no conversion happens at the call), whose address
-//     is never taken and which no closure mentions: nothing h calls can change it while h runs, so
-//     it holds the parameter's value throughout; h never assigns to or takes the address of its
-//     parameters, so replacing a parameter by that variable preserves every read;
+//     is never taken and which no closure mentions (checked by NAME, so for every variable of that
+//     name in the caller): nothing h calls can change it while h runs, so it holds the parameter's
+//     value throughout; h never assigns to or takes the address of its parameters, so replacing a
+//     parameter by that variable preserves every read;
+//   - a method promoted through embedded fields, x.m(…) = x.E1.….Ek.m(…) (go/types: the selection's
+//     index path): the receiver parameter is replaced by x.E1.….Ek, whose type must be identical to
+//     the receiver type (no implicit & or *). This is sound under stricter conditions (pathRecvOK):
+//     h's body is a single `return e` where e is built from identifiers, literals, field selections,
+//     dereferences, composite literals and & of a composite literal only — no calls, no stores, no
+//     && / ||: nothing can change x.E1.….Ek between the call and its uses, every part of e is
+//     evaluated unconditionally, and e mentions the receiver at least once, so x.E1.….Ek is
+//     evaluated (and a nil x panics) in the inlined form as at the original call; the only possible
+//     failure anywhere in e is a nil dereference, the same run-time error whichever comes first;
 //   - hygiene: the locals h declares are named unlike anything in the caller; every other name
 //     in h's body (package-level objects, fields) is not declared anywhere in the caller, so it
-//     resolves as it did inside h.
+//     resolves as it did inside h; the argument identifiers are spliced in at the position of the
+//     call, where they denote the variables they denoted as arguments.
 func (c *normCtx) siteBindable(h *ast.FuncDecl, hobj *types.Func, s normSite) bool {
 	sig := hobj.Type().(*types.Signature)
 	if s.call.Ellipsis.IsValid() {
@@ -2635,6 +3641,18 @@ func (c *normCtx) siteBindable(h *ast.FuncDecl, hobj *types.Func, s normSite) bo
 	if len(ptypes) != n {
 		return false
 	}
+	var path []string
+	var pathType types.Type
+	if h.Recv != nil {
+		var ok bool
+		path, _, pathType, ok = c.promotedPath(s.call)
+		if !ok {
+			return false
+		}
+		if len(path) > 0 && !c.pathRecvOK(h, ids[0]) {
+			return false
+		}
+	}
 	switch s.kind {
 	case 1:
 		if sig.Results().Len() != 1 {
@@ -2645,7 +3663,10 @@ func (c *normCtx) siteBindable(h *ast.FuncDecl, hobj *types.Func, s normSite) bo
 			return false
 		}
 		rt := c.typeOf(res.List[0].Type)
-		if rt == nil || !types.Identical(rt, sig.Results().At(0).Type()) {
+		if rt == nil {
+			return false
+		}
+		if !types.Identical(rt, sig.Results().At(0).Type()) && !c.returnsExactly(h, sig.Results().At(0).Type()) {
 			return false
 		}
 	case 2:
@@ -2666,20 +3687,22 @@ func (c *normCtx) siteBindable(h *ast.FuncDecl, hobj *types.Func, s normSite) bo
 	callerDecl := declaredNames(s.caller)
 	callerNames := identNames(s.caller)
 	hDecl := declaredNames(h)
-	argNames := map[string]bool{}
 	for i, a := range args {
 		id, ok := a.(*ast.Ident)
-		if !ok || !c.isLocalVar(id) || callerDecl[id.Name] != 1 {
+		if !ok || !c.isLocalVar(id) || callerDecl[id.Name] < 1 {
 			return false
 		}
 		t := c.typeOf(id)
-		if t == nil || !types.Identical(t, ptypes[i]) {
+		want := ptypes[i]
+		if i == 0 && len(path) > 0 {
+			t = pathType
+		}
+		if t == nil || !types.Identical(t, want) {
 			return false
 		}
 		if c.addressedOrCaptured(s.caller, id.Name) {
 			return false
 		}
-		argNames[id.Name] = true
 		if p := ids[i]; p != nil && p.Name != "_" {
 			if hDecl[p.Name] != 1 {
 				return false
@@ -2715,31 +3738,162 @@ func (c *normCtx) siteBindable(h *ast.FuncDecl, hobj *types.Func, s normSite) bo
 			return false // a free name of h would be captured by a declaration of the caller
 		}
 	}
-	// a parameter name that is also a selector / key name in h's body would confuse nothing:
-	// substitution is by object identity. But every occurrence of a parameter NAME must be such
-	// a use, so that no stale name is left behind.
+	// Substitution is by object identity. Every identifier of h's body that is spelled like a
+	// parameter must have a known object (the parameter, or e.g. a field of that name in a
+	// selector or a composite-literal key): an identifier without type information might denote
+	// the parameter and would be left behind.
 	for _, p := range ids {
 		if p == nil || p.Name == "_" {
 			continue
 		}
-		if c.countObj(h.Body, c.objOf(p)) != countIdent(h.Body, p.Name) {
+		unknown := false
+		ast.Inspect(h.Body, func(n ast.Node) bool {
+			if id, ok := n.(*ast.Ident); ok && id.Name == p.Name && c.objOf(id) == nil {
+				unknown = true
+			}
+			return !unknown
+		})
+		if unknown || c.objOf(p) == nil {
 			return false
 		}
 	}
 	return true
 }
 
+// promotedPath: for a method call x.m(…) whose method is found through embedded fields, the names
+// and indices of those fields (x.m is x.E1.….Ek.m) and the type of x.E1.….Ek. A direct method call
+// or a plain function call gives an empty path. ok is false when go/types knows nothing.
+func (c *normCtx) promotedPath(call *ast.CallExpr) (names []string, index []int, t types.Type, ok bool) {
+	se, isSel := call.Fun.(*ast.SelectorExpr)
+	if !isSel {
+		return nil, nil, nil, true
+	}
+	ts, okp := c.pair[se].(*ast.SelectorExpr)
+	if !okp {
+		return nil, nil, nil, false
+	}
+	sel := c.pkg.info.Selections[ts]
+	if sel == nil || sel.Kind() != types.MethodVal {
+		return nil, nil, nil, false
+	}
+	idx := sel.Index()
+	t = sel.Recv()
+	for _, i := range idx[:len(idx)-1] {
+		if p, isPtr := t.Underlying().(*types.Pointer); isPtr {
+			t = p.Elem()
+		}
+		st, isStruct := t.Underlying().(*types.Struct)
+		if !isStruct || i >= st.NumFields() || !st.Field(i).Embedded() {
+			return nil, nil, nil, false
+		}
+		names = append(names, st.Field(i).Name())
+		index = append(index, i)
+		t = st.Field(i).Type()
+	}
+	return names, index, t, true
+}
+
+// derefOnlyTree: e is built from identifiers, literals, field selections, dereferences,
+// parentheses, composite literals and & of a composite literal. Evaluating it calls nothing and
+// stores nothing, evaluates every part unconditionally, and can only fail by a nil dereference.
+func (c *normCtx) derefOnlyTree(e ast.Expr) bool {
+	switch x := e.(type) {
+	case *ast.CompositeLit:
+		// the literal's type: a struct, so that no key or index expression is evaluated
+		if t := c.typeOf(x); t == nil {
+			return false
+		} else if _, isStruct := t.Underlying().(*types.Struct); !isStruct {
+			return false
+		}
+		for _, el := range x.Elts {
+			v := el
+			if kv, ok := el.(*ast.KeyValueExpr); ok {
+				if _, ok := kv.Key.(*ast.Ident); !ok {
+					return false
+				}
+				v = kv.Value
+			}
+			if !c.derefOnlyTree(v) {
+				return false
+			}
+		}
+		return true
+	case *ast.UnaryExpr:
+		if x.Op != token.AND {
+			return false
+		}
+		cl, ok := x.X.(*ast.CompositeLit)
+		return ok && c.derefOnlyTree(cl)
+	case *ast.ParenExpr:
+		return c.derefOnlyTree(x.X)
+	}
+	return c.nilPanicOnly(e)
+}
+
+// pathRecvOK: the conditions on the helper under which its receiver parameter recv may be replaced
+// by a selector path (see siteBindable).
+func (c *normCtx) pathRecvOK(h *ast.FuncDecl, recv *ast.Ident) bool {
+	if recv == nil || recv.Name == "_" || len(h.Body.List) != 1 {
+		return false
+	}
+	ret, ok := h.Body.List[0].(*ast.ReturnStmt)
+	if !ok || len(ret.Results) != 1 || !c.derefOnlyTree(ret.Results[0]) {
+		return false
+	}
+	robj := c.objOf(recv)
+	return robj != nil && c.countObj(ret, robj) >= 1
+}
+
+// returnsExactly: every return statement of h returns one non-constant, non-nil expression whose
+// static type is identical to t.
+func (c *normCtx) returnsExactly(h *ast.FuncDecl, t types.Type) bool {
+	good, some := true, false
+	ast.Inspect(h.Body, func(n ast.Node) bool {
+		ret, ok := n.(*ast.ReturnStmt)
+		if !ok {
+			return good
+		}
+		some = true
+		if len(ret.Results) != 1 {
+			good = false
+			return false
+		}
+		te, ok := c.pair[ret.Results[0]].(ast.Expr)
+		if !ok {
+			good = false
+			return false
+		}
+		tv, ok := c.pkg.info.Types[te]
+		if !ok || tv.Value != nil || tv.IsNil() || !tv.IsValue() || tv.Type == nil || !types.Identical(tv.Type, t) {
+			good = false
+		}
+		return good
+	})
+	return good && some
+}
+
 // spliceBody replaces the call site by a copy of h's body with parameters replaced by arguments.
-func (c *normCtx) spliceBody(h *ast.FuncDecl, s normSite) {
+// foreign: h comes from another file (its positions mean nothing in the generator's file set:
+// the copy is moved to the position of the call).
+func (c *normCtx) spliceBody(h *ast.FuncDecl, s normSite, foreign bool) {
 	args := siteArgs(h, s.call)
 	ids, _ := helperParams(h)
 	body := c.cloneStmts(h.Body.List)
 	holder := &ast.BlockStmt{List: body}
+	if foreign {
+		setPos(holder, s.call.Pos())
+	}
 	for i, p := range ids {
 		if p == nil || p.Name == "_" {
 			continue
 		}
-		c.substObj(holder, c.objOf(p), args[i])
+		repl := args[i]
+		if i == 0 && h.Recv != nil {
+			if path, index, _, ok := c.promotedPath(s.call); ok && len(path) > 0 {
+				repl = c.substPathRecv(holder, c.objOf(p), args[0], path, index)
+			}
+		}
+		c.substObj(holder, c.objOf(p), repl)
 	}
 	replaced := false
 	visitLists(s.caller, func(list []ast.Stmt, _ listCtx) []ast.Stmt {
@@ -2764,6 +3918,50 @@ func (c *normCtx) spliceBody(h *ast.FuncDecl, s normSite) {
 		}
 		return list
 	})
+}
+
+// substPathRecv handles the receiver parameter pobj of a promoted method, called as x.m(…) with
+// x.m = x.E1.….Ek.m: every field selection `recv.g` in the copied body for which go/types finds
+// x.g through exactly the path E1.….Ek followed by recv.g's own path is rewritten to `x.g` — by
+// the definition of promoted fields x.g IS x.E1.….Ek.g then. It returns the explicit operand
+// x.E1.….Ek for all other uses of the receiver.
+func (c *normCtx) substPathRecv(holder ast.Node, pobj types.Object, x ast.Expr, path []string, index []int) ast.Expr {
+	var explicit ast.Expr = x
+	for _, name := range path {
+		explicit = &ast.SelectorExpr{X: explicit, Sel: &ast.Ident{NamePos: x.Pos(), Name: name}}
+	}
+	xt := c.typeOf(x)
+	if xt == nil || pobj == nil {
+		return explicit
+	}
+	mapExprs(holder, func(e ast.Expr) ast.Expr {
+		se, ok := e.(*ast.SelectorExpr)
+		if !ok {
+			return e
+		}
+		id, ok := se.X.(*ast.Ident)
+		if !ok || c.objOf(id) != pobj {
+			return e
+		}
+		sel := c.fieldSel(se)
+		if sel == nil {
+			return e
+		}
+		obj, idx, _ := types.LookupFieldOrMethod(xt, true, c.pkg.pkg, se.Sel.Name)
+		want := append(append([]int(nil), index...), sel.Index()...)
+		if obj == nil || obj != sel.Obj() || len(idx) != len(want) {
+			return e
+		}
+		for k := range idx {
+			if idx[k] != want[k] {
+				return e
+			}
+		}
+		short := &ast.SelectorExpr{X: c.cloneExpr(x), Sel: &ast.Ident{NamePos: se.Sel.Pos(), Name: se.Sel.Name}}
+		setPos(short, se.Pos())
+		return short
+	})
+	return explicit
 }
 
 // ---- predicate helpers: func p(x I) bool { switch x.(type) { case T1, T2: return true }; return false }
